@@ -1,1 +1,19 @@
-fn main() { println!("stub"); }
+//! Resource accounting drivers (B3 behaviour replay): C21 disk manager + spill files,
+//! C17 memory pools, C31 dynamic filters — DESIGN.md §7.2.
+mod c17;
+mod c21;
+mod c31;
+
+fn main() {
+    let a: Vec<String> = std::env::args().collect();
+    let cmd = a.get(1).map(|s| s.as_str()).unwrap_or("");
+    match cmd {
+        "c21" => c21::main(),
+        "c17" => c17::main(),
+        "c31" => c31::main(),
+        _ => {
+            eprintln!("usage: vpool <c21|c17|c31> [options]");
+            std::process::exit(2);
+        }
+    }
+}
